@@ -44,6 +44,10 @@ def case(ctx, i, rec):
     ts, r = zoo.any_input(rng, contemporaneous=True, kinds=["sim", "sim", "handmade", "missing", "inferred"])
     if not common.discrete_ok(ts) or ts.num_nodes > 80:
         ts, r = zoo.sim(rng, n=int(rng.integers(2, 10)))
+    if i % 4 in (1, 2):
+        # node ids in arbitrary order: samples are not the first ids (subset/union output, hand-built tables)
+        ts, _perm = zoo.renumber_all(ts, rng)
+        r["all_ids_permuted"] = True
     distr = ["lognorm", "gamma"][i % 2]
     nep = int(rng.choice([1, 1, 2, 3, 5]))
     base = float(10 ** rng.uniform(0, 5))
@@ -78,6 +82,8 @@ def case(ctx, i, rec):
             rec.violation("build_prior_grid-raised:" + key[:40], f"valid arguments raised {key}")
         return
     rec.count(f"form:{form}")
+    if r.get("all_ids_permuted"):
+        rec.count("inputs_with_samples_not_first")
     rec.count(f"epochs:{nep}")
     rec.count("grids:int" if user_grid is None else "grids:explicit")
     tp = np.asarray(pr.timepoints, dtype=float)
@@ -129,7 +135,7 @@ def case(ctx, i, rec):
 
 
 def reach(ctx, agg):
-    need = {"rows_compared": 200, "grids:int": 20, "grids:explicit": 20, "form:object": 10}
+    need = {"rows_compared": 200, "inputs_with_samples_not_first": 20, "grids:int": 20, "grids:explicit": 20, "form:object": 10}
     out = [f"{k} = {agg.cnt.get(k, 0)} < {v}" for k, v in need.items() if agg.cnt.get(k, 0) < v]
     multi = sum(v for k, v in agg.cnt.items() if k.startswith("epochs:") and k != "epochs:1")
     if multi < 3:
